@@ -180,12 +180,47 @@ def r5_map_delegate(rep, facts):
     rep.check(R, 'Map.map|type', ty.startswith(exp), ty[:60], f'toml::Map stores `{ty}`, expected {exp}..> in this configuration')
 
 
+EXT = 'core::iter::traits::collect::Extend'
+FROMIT = 'core::iter::traits::collect::FromIterator'
+
+
+def r6_sorting(rep, facts):
+    R = rep.rule('C16/R6', 'sorting is a permutation applied where documented: each sort function sorts its own entries once and recurses only into '
+                 'dotted children through the same function with the same comparison', floor=8)
+    from .shared import sort_recursion
+    sort_recursion(rep, R, facts)
+
+
+def r7_bulk_insert(rep, facts):
+    R = rep.rule('C16/R7', 'bulk insertion is repeated insertion: Extend for Table / InlineTable stores every pair with `items.insert` (an existing key keeps '
+                 'its position and takes the new value, like insert), FromIterator goes through Extend, toml::Map forwards to its backing map', floor=5)
+    for ty in ('toml_edit::table::Table', 'toml_edit::inline_table::InlineTable'):
+        d = facts.method(EXT, ty, 'extend')
+        b = facts.body(d)
+        ops = sorted({n['name'] for n in walk(b['body']) if n.get('k') == 'mcall' and n.get('name') in ('insert', 'insert_full', 'entry', 'or_insert', 'or_insert_with', 'push', 'extend', 'insert_before', 'shift_insert')})
+        in_loop = any(n.get('k') == 'loop' and any(x.get('k') == 'mcall' and x.get('name') == 'insert' for x in walk(n)) for n in walk(b['body']))
+        rep.check(R, f'{ty}|extend', ops == ['insert'] and in_loop, 'for (k, v) in iter { self.items.insert(k, v) }',
+                  f'`Extend for {last_seg(ty)}` stores pairs with {ops}: an incoming pair whose key already exists no longer replaces the old value (extend and insert disagree)', facts.loc(b))
+        d2 = facts.method(FROMIT, ty, 'from_iter')
+        b2 = facts.body(d2)
+        ok2 = any(n.get('k') == 'mcall' and n.get('name') == 'extend' for n in walk(b2['body']))
+        rep.check(R, f'{ty}|from_iter', ok2, 'from_iter = default + extend', f'`FromIterator for {last_seg(ty)}` no longer goes through Extend', facts.loc(b2))
+    if 'toml' in facts.crates:
+        ty = 'toml::map::Map<alloc::string::String, toml::value::Value>'
+        if facts.has_method(EXT, ty, 'extend'):
+            b = facts.body(facts.method(EXT, ty, 'extend'))
+            ok = any(n.get('k') == 'mcall' and n.get('name') == 'extend' and peel(n['recv']).get('k') == 'field' and peel(n['recv']).get('name') == 'map' for n in walk(b['body']))
+            rep.check(R, 'toml::Map|extend', ok, 'self.map.extend(iter)', 'Extend for toml::Map no longer forwards to the backing map', facts.loc(b))
+
+
 def rules(rep, facts):
     if 'toml_edit' in facts.crates:
         R1 = rep.rule('C16/R1', 'no order-breaking storage operation (swap_remove*, IndexMap::remove, sort_unstable*, swap_indices) in toml_edit / toml', floor=2)
         order_ops(rep, R1, facts, floor_shift=6)
         r2_placeholders(rep, facts)
         r4_key_identity(rep, facts)
+        r6_sorting(rep, facts)
+        r7_bulk_insert(rep, facts)
     if 'toml' in facts.crates:
         r5_map_delegate(rep, facts)
 
